@@ -47,6 +47,16 @@ def is_acyclic(n, cons):
     return seen == n
 
 
+def failed_restart(solver, coin):
+    """Solver.setStartingPositions() resets the block structure and then raises (the block list is not iterable); a caller
+    who catches that goes on with the same Solver.  Should a later version accept the call, the starting positions are
+    still no part of the problem instance."""
+    try:
+        solver.setStartingPositions([coin.randint(-5, 15) for _ in solver.vs])
+    except Exception:
+        pass
+
+
 def run_solver(des, wt, sc, cons, first=None):
     """des/wt/sc are what the CODE sees (floats/ints); cons = [(l, r, gap)].
     first: desired positions of an EARLIER solve() on the same Solver; des is then installed with setDesiredPositions()
@@ -88,7 +98,11 @@ def run_solver(des, wt, sc, cons, first=None):
         if first is not None:
             solver.solve()
             calls[0] = 0
+            if coin.random() < 0.35:
+                failed_restart(solver, coin)
             solver.setDesiredPositions(list(des))
+            if coin.random() < 0.2:
+                failed_restart(solver, coin)
         ret = solver.solve()
     except Budget:
         terminated = False
@@ -167,6 +181,13 @@ def traced_solve(des, wt, sc, cons, first=None):
     try:
         solver.solve()
         if first is not None:
+            coin = random.Random(repr((list(map(str, des)), len(cons))))
+            if coin.random() < 0.3:
+                failed_restart(solver, coin)
+                if any(c.active for c in cs):          # (a version whose call does not reset the structure: nothing to log)
+                    pass
+                else:
+                    raw.append(("restart", 0) + flags())
             solver.setDesiredPositions(list(des))
             raw.append(("retarget", 0) + flags())
             solver.solve()
@@ -211,6 +232,8 @@ def traced_solve(des, wt, sc, cons, first=None):
                 ev.append({"a": "U", "c": c, "act": act, "uns": [u or (1 if k + 1 == c else 0) for k, u in enumerate(uns)]})
         elif kind == "endsat":
             ev.append({"a": "X", "c": 0, "act": act, "uns": uns})
+        elif kind == "restart":
+            ev.append({"a": "Z", "c": 0, "act": act, "uns": uns})
         elif kind == "retarget":
             ev.append({"a": "R", "c": 0, "act": act, "uns": uns, "des": list(des)})
         i += 1
@@ -475,6 +498,8 @@ def main():
                 # an earlier solve() on the same Solver with other desired positions (same lattice, so the same envelope)
                 hi = max(des + [2])
                 first = [rng.choice([d, rng.randint(0, hi), rng.randint(0, hi)]) for d in des]
+                if rng.random() < 0.15:
+                    first = list(des)                 # the same problem solved twice
             if not cons or not envelope_ok(des, wt, sc, cons) or (first is not None and not envelope_ok(first, wt, sc, cons)):
                 discarded += 1
                 continue
